@@ -54,7 +54,8 @@ class Check:
         self.extra_cov = {}
         self.findings = [f for f in json.load(open(KNOWN))["findings"]] if os.path.exists(KNOWN) else []
         self.build_obj = None
-        self.replay_dir = os.path.join(VERIF, "evidence", "replay")
+        self.evidence_dir = os.environ.get("VERIF_EVIDENCE_DIR", os.path.join(VERIF, "evidence"))   # tools/seed_matrix.py points this elsewhere
+        self.replay_dir = os.path.join(self.evidence_dir, "replay")
 
     # ------------------------------------------------------------------ builds
     def build(self, variant="plain", mains=(), harness=("vharness",)):
@@ -270,8 +271,8 @@ class Check:
             cov.update(extra)
         ev = {"property_id": self.pid, "tier": self.tier, "seed": self.seed, "level": level, "coverage": cov,
               "assumptions": list(assumptions), "wall_s": round(time.time() - self.t0, 1), "violations": len(self.violations)}
-        os.makedirs(os.path.join(VERIF, "evidence"), exist_ok=True)
-        json.dump(ev, open(os.path.join(VERIF, "evidence", self.pid + ".json"), "w"), indent=1)
+        os.makedirs(self.evidence_dir, exist_ok=True)
+        json.dump(ev, open(os.path.join(self.evidence_dir, self.pid + ".json"), "w"), indent=1)
         print("%s %s: %d executions validated, %d spec states, %d known-finding divergences, %d violations, %.0fs" %
               (self.pid, self.tier, self.traces, self.states, sum(self.known_hits.values()), len(self.violations), time.time() - self.t0))
         return rc
